@@ -14,15 +14,20 @@ tvars == <<svars, l>>
 Triples(c) == UNION {{<<t, k, c[t][k]>> : k \in DOMAIN c[t]} : t \in Registered}
 Logged(st) == {<<st[i][1], st[i][2], st[i][3]>> : i \in 1..Len(st)}
 
+\* what the callbacks themselves observed: the snapshot callback's last argument (start = true, end = false)
+Callbacks(e) == e.snaparg = snaparg'
+
 EventStep(e) ==
   \/ /\ e.e = "new"
-     /\ coll' = Empty /\ last' = NoOffset /\ strict' = e.strict /\ resets' = 0 /\ snaps' = 0 /\ errcb' = 0
+     /\ coll' = Empty /\ last' = NoOffset /\ strict' = e.strict /\ resets' = 0 /\ snaps' = 0 /\ errcb' = 0 /\ snaparg' = "none"
   \/ /\ e.e = "apply"
      /\ Apply(e.msg, e.off, e.err)
      /\ Logged(e.state) = Triples(coll') /\ e.last = last' /\ e.resets = resets' /\ e.snaps = snaps' /\ e.errcb = errcb'
+     /\ Callbacks(e)
   \/ /\ e.e = "applydirect"                               \* ApplyChangeMessage / ApplyControlMessage
      /\ ApplyDirect(e.msg, e.err)
      /\ Logged(e.state) = Triples(coll') /\ e.last = last' /\ e.resets = resets' /\ e.snaps = snaps' /\ e.errcb = errcb'
+     /\ Callbacks(e)
   \/ /\ e.e = "final"                                     \* two sessions give the same state as one
      /\ Logged(e.state) = Triples(coll) /\ e.last = last
      /\ UNCHANGED svars
